@@ -278,17 +278,9 @@ func (d *DFA) SearchAtAnchored(cache *DFACache, haystack []byte, at int) int {
 			}
 			nextState, err := d.determinize(cache, currentState, b)
 			if err != nil {
-				if isCacheCleared(err) {
-					currentState = d.getStartState(cache, haystack, pos, true)
-					if currentState == nil {
-						return d.nfaFallback(haystack, at)
-					}
-					sid = currentState.id
-					ft = cache.flatTrans
-					ftLen = len(ft)
-					pos--
-					continue
-				}
+				// A cleared cache invalidates the state this scan was in, and with it the
+				// threads of the match in flight: a restart from a start state would drop
+				// them. Like any other failure of determinize, hand over to the NFA.
 				return d.nfaFallback(haystack, at)
 			}
 			if nextState == nil {
@@ -879,18 +871,9 @@ func (d *DFA) searchEarliestMatchAnchored(cache *DFACache, haystack []byte, star
 			}
 			nextState, err := d.determinize(cache, currentState, b)
 			if err != nil {
-				if isCacheCleared(err) {
-					currentState = d.getStartState(cache, haystack, pos, true)
-					if currentState == nil {
-						start, end, matched := d.pikevm.SearchAt(haystack, startPos)
-						return matched && start == startPos && end >= start
-					}
-					sid = currentState.id
-					ft = cache.flatTrans
-					ftLen = len(ft)
-					pos--
-					continue
-				}
+				// A cleared cache invalidates the state this scan was in, and with it the
+				// threads of the match in flight: a restart from a start state would drop
+				// them. Like any other failure of determinize, hand over to the NFA.
 				start, end, matched := d.pikevm.SearchAt(haystack, startPos)
 				return matched && start == startPos && end >= start
 			}
@@ -992,16 +975,9 @@ func (d *DFA) findWithPrefilterAt(cache *DFACache, haystack []byte, startAt int)
 			}
 			nextState, err := d.determinize(cache, currentState, haystack[pos])
 			if err != nil {
-				if isCacheCleared(err) {
-					newStart := d.getStartStateForUnanchored(cache, haystack, pos)
-					if newStart == nil {
-						return d.nfaFallback(haystack, 0)
-					}
-					sid = newStart.id
-					ft = cache.flatTrans
-					ftLen = len(ft)
-					continue
-				}
+				// A cleared cache invalidates the state this scan was in, and with it the
+				// threads of the match in flight: a restart from a start state would drop
+				// them. Like any other failure of determinize, hand over to the NFA.
 				return d.nfaFallback(haystack, 0)
 			}
 			if nextState == nil {
@@ -1878,16 +1854,9 @@ func (d *DFA) SearchReverse(cache *DFACache, haystack []byte, start, end int) in
 			}
 			nextState, err := d.determinize(cache, currentState, b)
 			if err != nil {
-				if isCacheCleared(err) {
-					currentState = d.getStartStateForReverse(cache, haystack, at+1)
-					if currentState == nil {
-						return d.nfaFallbackReverse(haystack, start, end)
-					}
-					sid = currentState.id
-					ft = cache.flatTrans
-					ftLen = len(ft)
-					continue
-				}
+				// A cleared cache invalidates the state this scan was in, and with it the
+				// threads of the match in flight: a restart from a start state would drop
+				// them. Like any other failure of determinize, hand over to the NFA.
 				return d.nfaFallbackReverse(haystack, start, end)
 			}
 			if nextState == nil {
@@ -1994,17 +1963,9 @@ func (d *DFA) SearchReverseLimited(cache *DFACache, haystack []byte, start, end,
 			}
 			nextState, err := d.determinize(cache, currentState, b)
 			if err != nil {
-				if isCacheCleared(err) {
-					currentState = d.getStartStateForReverse(cache, haystack, at+1)
-					if currentState == nil {
-						return d.nfaFallbackReverse(haystack, start, end)
-					}
-					sid = currentState.id
-					ft = cache.flatTrans
-					ftLen = len(ft)
-					at++ // Will be decremented by for-loop
-					continue
-				}
+				// A cleared cache invalidates the state this scan was in, and with it the
+				// threads of the match in flight: a restart from a start state would drop
+				// them. Like any other failure of determinize, hand over to the NFA.
 				return d.nfaFallbackReverse(haystack, start, end)
 			}
 			if nextState == nil {
@@ -2085,17 +2046,9 @@ func (d *DFA) IsMatchReverse(cache *DFACache, haystack []byte, start, end int) b
 			}
 			nextState, err := d.determinize(cache, currentState, b)
 			if err != nil {
-				if isCacheCleared(err) {
-					currentState = d.getStartStateForReverse(cache, haystack, at+1)
-					if currentState == nil {
-						return d.nfaFallbackReverse(haystack, start, end) >= 0
-					}
-					sid = currentState.id
-					ft = cache.flatTrans
-					ftLen = len(ft)
-					at++ // Will be decremented by for-loop
-					continue
-				}
+				// A cleared cache invalidates the state this scan was in, and with it the
+				// threads of the match in flight: a restart from a start state would drop
+				// them. Like any other failure of determinize, hand over to the NFA.
 				return d.nfaFallbackReverse(haystack, start, end) >= 0
 			}
 			if nextState == nil {
